@@ -21,7 +21,7 @@ from __future__ import annotations
 
 from mc import asm
 
-OWN_WORDS = 9  # marker, CALLER, ORIGIN, ADDRESS, CALLVALUE, SLOAD(0), TLOAD(0), SELFBALANCE, CODESIZE
+OWN_WORDS = 10  # marker, CALLER, ORIGIN, ADDRESS, CALLVALUE, SLOAD(0), TLOAD(0), SELFBALANCE, CODESIZE, the first calldata word
 DUMP_WORDS = 4  # SLOAD(0), TLOAD(0), SELFBALANCE, ADDRESS
 ROOT_ADDR = 0xC0
 PBASE = 0x400  # payload is assembled here
@@ -87,7 +87,8 @@ def value_code(n, parent_is_root):
 
 def node_body(n, codes, is_root):
     """items for the behaviour of node n (without the dump dispatcher)"""
-    items = ["PUSH0", "CALLDATALOAD", ("push", XARG), "MSTORE"]
+    # the first calldata word, fetched with CALLDATACOPY (in a creation frame the calldata is empty: zeros, not the init code)
+    items = [("push", 32), "PUSH0", ("push", XARG), "CALLDATACOPY"]
     for e in n["effects"]:
         if e == "S":
             items += [("push", n["marker"]), "PUSH0", "SSTORE"]
@@ -129,7 +130,7 @@ def node_body(n, codes, is_root):
             items += ["RETURNDATASIZE", ("push", rds_off), "MSTORE"]
         off += 32 * (2 + w)
     # own observations (after children)
-    own = [("push", n["marker"]), "CALLER", "ORIGIN", "ADDRESS", "CALLVALUE", ["PUSH0", "SLOAD"], ["PUSH0", "TLOAD"], "SELFBALANCE", "CODESIZE"]
+    own = [("push", n["marker"]), "CALLER", "ORIGIN", "ADDRESS", "CALLVALUE", ["PUSH0", "SLOAD"], ["PUSH0", "TLOAD"], "SELFBALANCE", "CODESIZE", [("push", XARG), "MLOAD"]]
     for i, o in enumerate(own):
         items += (o if isinstance(o, list) else [o]) + [("push", PBASE + 32 * i), "MSTORE"]
     for e in n.get("post", ""):
